@@ -1,1 +1,394 @@
-import CnlModel.Static
+import CnlProofs.Static
+/-!
+# C11 — static_integer and static_number are never silently wrong
+
+Theorems about the executable composition model `CnlModel/Static.lean` (+ the history evaluator
+`CnlModel/StaticExpr.lean`), which is validated against the real `static_number` by the `C11`
+correspondence table (operators, comparisons, conversions, two-step histories).  They hold for **all**
+digit counts, exponents, rounding tags and overflow tags.
+
+* "in range" is `SNum.InRange`: `|value| ≤ 2^digits − 1`, the declared range of the type.
+* "well-formed" is the hypothesis `∀ m, f … ≠ .ill m`: the model returns `.ill` exactly when a storage
+  selection fails (digits beyond the widest integer — the real program does not compile) or when the
+  native overflow tag would have to react (outside the model).
+* `exactBin m op x y` (`CnlSpec/Static.lean`) is the demanded result of one operator: declared digits,
+  exponent, exact value at that exponent (`exactBin_add … exactBin_div` spell it out).
+* `evalIdeal` is the ideal evaluation of a history (exact integers at known exponents, `roundDiv` at
+  each division and precision-losing conversion, a *signal* when a conversion does not fit — the clamped
+  limit under the saturated tag); `Agrees tag r i` says the model's outcome `r` is the ideal outcome
+  `i`: same exponent and value, or the tag's reaction to a signal of the same polarity.  Undefined
+  behaviour agrees with nothing, so every `Agrees` conclusion includes "never undefined".
+
+Per node: `binOp_exact` (`+ − *`), `div_rounded`, `neg_exact`, `cmp_exact` (+ `cmp_any_common_exponent`),
+`convert_exact_or_signal` (+ `convert_agrees`).  The narrowing conversion carries the hypothesis
+`¬ KnownDefect c E x`, the complement of the two **open** defect classes; each class is refuted from
+its witness: `narrowing_drops_all_digits_refuted`, `rounded_value_exceeds_intermediate_refuted`.
+Histories: `never_silently_wrong` (induction over `SExpr`, i.e. histories of any length) and its
+corollaries.  Nothing is left unproved; the part of the property that fails is exactly the part the two
+refutations exhibit.
+-/
+namespace Cnl.C11
+open Cnl Cnl.Spec Cnl.Static Cnl.Rounding Cnl.Elastic
+
+/-- the ideal evaluator's rounding is the one C08 proves of the division -/
+theorem rmode_eq_modeOf (m : RdMode) : rmode m = modeOf m := Static.rmode_eq_modeOf m
+
+/-! ## 1. `+ − *` are exact -/
+
+theorem exactBin_add (m : RoundMode) (x y : SNum) : exactBin m .add x y =
+    ⟨max (x.digits + (x.exp - min x.exp y.exp).toNat) (y.digits + (y.exp - min x.exp y.exp).toNat) + 1,
+     min x.exp y.exp,
+     x.value * 2^(x.exp - min x.exp y.exp).toNat + y.value * 2^(y.exp - min x.exp y.exp).toNat⟩ := rfl
+
+theorem exactBin_sub (m : RoundMode) (x y : SNum) : exactBin m .sub x y =
+    ⟨max (x.digits + (x.exp - min x.exp y.exp).toNat) (y.digits + (y.exp - min x.exp y.exp).toNat) + 1,
+     min x.exp y.exp,
+     x.value * 2^(x.exp - min x.exp y.exp).toNat - y.value * 2^(y.exp - min x.exp y.exp).toNat⟩ := rfl
+
+theorem exactBin_mul (m : RoundMode) (x y : SNum) : exactBin m .mul x y =
+    ⟨prodDigits x.digits y.digits, x.exp + y.exp, x.value * y.value⟩ := rfl
+
+theorem exactBin_div (m : RoundMode) (x y : SNum) : exactBin m .div x y =
+    ⟨x.digits, x.exp - y.exp, roundDiv m x.value y.value⟩ := rfl
+
+/-- For `op ∈ {+, −, *}`, every rounding and overflow tag, all digit counts and exponents and all
+in-range operands of a well-formed instantiation: the operator returns — no signal, no undefined
+behaviour — the number whose exponent is the smaller operand exponent (`*`: the sum), whose value is the
+exact result at that exponent (operands aligned), and which is in range of its declared digits. -/
+theorem binOp_exact (c : Cfg) (op : BinOp) (hop : op = .add ∨ op = .sub ∨ op = .mul) (x y : SNum)
+    (hx : x.InRange) (hy : y.InRange) (hwf : ∀ m, Static.binOp c op x y ≠ .ill m) :
+    Static.binOp c op x y = .ok (exactBin (rmode c.mode) op x y) ∧
+      (exactBin (rmode c.mode) op x y).InRange := by
+  have hop' : IsArith op := by rcases hop with h | h | h <;> simp [IsArith, h]
+  have h0 : op = .div → y.value ≠ 0 := by rcases hop with h | h | h <;> subst h <;> intro h <;> cases h
+  rcases binOp_spec c op hop' x y hx hy h0 with h | ⟨m, h⟩
+  · exact h
+  · exact absurd h (hwf m)
+
+/-- `binOp_exact` for `+`, spelled out -/
+theorem add_exact (c : Cfg) (x y : SNum) (hx : x.InRange) (hy : y.InRange)
+    (hwf : ∀ m, Static.binOp c .add x y ≠ .ill m) :
+    ∃ z, Static.binOp c .add x y = .ok z ∧ z.exp = min x.exp y.exp ∧
+      z.value = x.value * 2^(x.exp - z.exp).toNat + y.value * 2^(y.exp - z.exp).toNat ∧ z.InRange :=
+  have ⟨h, hr⟩ := binOp_exact c .add (.inl rfl) x y hx hy hwf
+  ⟨_, h, rfl, rfl, hr⟩
+
+/-- `binOp_exact` for `*`, spelled out -/
+theorem mul_exact (c : Cfg) (x y : SNum) (hx : x.InRange) (hy : y.InRange)
+    (hwf : ∀ m, Static.binOp c .mul x y ≠ .ill m) :
+    ∃ z, Static.binOp c .mul x y = .ok z ∧ z.exp = x.exp + y.exp ∧ z.value = x.value * y.value ∧ z.InRange :=
+  have ⟨h, hr⟩ := binOp_exact c .mul (.inr (.inr rfl)) x y hx hy hwf
+  ⟨_, h, rfl, rfl, hr⟩
+
+-- `static_number<8,-2> + static_number<4,1>`: alignment adds three digits to the right operand
+example : Static.binOp ⟨.nrst, .sat⟩ .add ⟨8, -2, 255⟩ ⟨4, 1, -15⟩ = .ok ⟨9, -2, 135⟩ := by decide
+-- 63-digit operands: 64-bit operand storage, 128-bit result storage
+example : Static.binOp ⟨.tpi, .thr⟩ .mul ⟨63, -10, 9223372036854775807⟩ ⟨63, 3, -9223372036854775807⟩
+    = .ok ⟨126, -7, -85070591730234615847396907784232501249⟩ := by decide
+example : Static.binOp ⟨.ninf, .trp⟩ .sub ⟨31, 0, -2147483647⟩ ⟨31, 0, 2147483647⟩ = .ok ⟨32, 0, -4294967294⟩ := by
+  decide
+-- the hypotheses are satisfiable at the limits; beyond the widest storage the instantiation is ill-formed
+example : (⟨63, -10, 9223372036854775807⟩ : SNum).InRange ∧
+    (∀ m, Static.binOp ⟨.tpi, .thr⟩ .mul ⟨63, -10, 9223372036854775807⟩ ⟨63, 3, -9223372036854775807⟩ ≠ .ill m) := by
+  refine ⟨by decide, fun m h => ?_⟩
+  have e : Static.binOp ⟨.tpi, .thr⟩ .mul ⟨63, -10, 9223372036854775807⟩ ⟨63, 3, -9223372036854775807⟩
+      = .ok ⟨126, -7, -85070591730234615847396907784232501249⟩ := by decide
+  rw [e] at h; cases h
+example : Static.binOp ⟨.nrst, .sat⟩ .mul ⟨64, 0, 5⟩ ⟨64, 0, 5⟩ = .ill "result digits exceed the widest integer" := by
+  decide
+
+/-! ## 2. `/` is the correctly rounded quotient -/
+
+/-- For every rounding and overflow tag, all digit counts and exponents, all in-range operands with a
+non-zero divisor: the quotient of the representation values rounded as the rounding tag prescribes, in
+the dividend's digits, at the difference of the exponents, in range — no signal, no undefined
+behaviour (the operands are converted into a storage type with at least `max(digits)` digits). -/
+theorem div_rounded (c : Cfg) (x y : SNum) (hx : x.InRange) (hy : y.InRange) (h0 : y.value ≠ 0)
+    (hwf : ∀ m, Static.binOp c .div x y ≠ .ill m) :
+    Static.binOp c .div x y = .ok ⟨x.digits, x.exp - y.exp, roundDiv (modeOf c.mode) x.value y.value⟩ ∧
+      (⟨x.digits, x.exp - y.exp, roundDiv (modeOf c.mode) x.value y.value⟩ : SNum).InRange := by
+  rcases binOp_div_spec c x y hx hy h0 with h | ⟨m, h⟩
+  · rw [← Static.rmode_eq_modeOf]; exact h
+  · exact absurd h (hwf m)
+
+/-- in every mode a rounded quotient is no larger in magnitude than the dividend -/
+theorem roundDiv_natAbs_le (m : RoundMode) (a b : Int) (hb : b ≠ 0) : (roundDiv m a b).natAbs ≤ a.natAbs :=
+  Static.roundDiv_natAbs_le m a b hb
+
+-- the case that was wrong before the repairs: static_integer<31, nearest, saturated>(2147483647) / 2
+example : Static.binOp ⟨.nrst, .sat⟩ .div ⟨31, 0, 2147483647⟩ ⟨31, 0, 2⟩ = .ok ⟨31, 0, 1073741824⟩ := by decide
+example : Static.binOp ⟨.nrst, .sat⟩ .div ⟨31, 0, 2147483647⟩ ⟨31, 0, 2147483647⟩ = .ok ⟨31, 0, 1⟩ := by decide
+-- a wider divisor is not narrowed to the dividend's digits
+example : Static.binOp ⟨.tpi, .thr⟩ .div ⟨10, -3, 1023⟩ ⟨40, 2, 1099511627775⟩ = .ok ⟨10, -5, 0⟩ := by decide
+example : Static.binOp ⟨.ninf, .trp⟩ .div ⟨40, 0, -1099511627775⟩ ⟨3, 0, 7⟩ = .ok ⟨40, 0, -157073089683⟩ := by decide
+example : (⟨31, 0, 2147483647⟩ : SNum).InRange ∧ (⟨31, 0, 2⟩ : SNum).InRange ∧
+    (∀ m, Static.binOp ⟨.nrst, .sat⟩ .div ⟨31, 0, 2147483647⟩ ⟨31, 0, 2⟩ ≠ .ill m) := by
+  refine ⟨by decide, by decide, fun m h => ?_⟩
+  have e : Static.binOp ⟨.nrst, .sat⟩ .div ⟨31, 0, 2147483647⟩ ⟨31, 0, 2⟩ = .ok ⟨31, 0, 1073741824⟩ := by decide
+  rw [e] at h; cases h
+
+/-! ## 3. unary minus and comparison -/
+
+/-- `-x` is the exact negation in the same digits and exponent -/
+theorem neg_exact (x : SNum) (hx : x.InRange) (hwf : ∀ m, Static.neg x ≠ .ill m) :
+    Static.neg x = .ok ⟨x.digits, x.exp, -x.value⟩ ∧ (⟨x.digits, x.exp, -x.value⟩ : SNum).InRange := by
+  rcases neg_spec x hx with h | ⟨m, h⟩
+  · exact h
+  · exact absurd h (hwf m)
+
+example : Static.neg ⟨31, -5, -2147483647⟩ = .ok ⟨31, -5, 2147483647⟩ := by decide
+
+/-- every comparison of two in-range static numbers compares their values at the smaller exponent … -/
+theorem cmp_exact (op : CmpOp) (x y : SNum) (hx : x.InRange) (hy : y.InRange)
+    (hwf : ∀ m, Static.cmp op x y ≠ .ill m) :
+    Static.cmp op x y = .ok (cmpExact op (alignL x.exp y.exp x.value) (alignR x.exp y.exp y.value)) := by
+  rcases cmp_spec op x y hx hy with h | ⟨m, h⟩
+  · exact h
+  · exact absurd h (hwf m)
+
+/-- … which is comparing them at any common exponent `e0`, i.e. the order of the denoted numbers
+`value · 2^exp` (both sides are integers after multiplication by `2^(−e0)`) -/
+theorem cmp_any_common_exponent (op : CmpOp) (x y : SNum) (hx : x.InRange) (hy : y.InRange)
+    (hwf : ∀ m, Static.cmp op x y ≠ .ill m) (e0 : Int) (h1 : e0 ≤ x.exp) (h2 : e0 ≤ y.exp) :
+    Static.cmp op x y = .ok (cmpExact op (x.value * 2^(x.exp - e0).toNat) (y.value * 2^(y.exp - e0).toNat)) := by
+  rw [cmp_exact op x y hx hy hwf, cmp_common_exponent op x y e0 h1 h2]
+
+-- 3·2^4 = 48 > 47·2^0
+example : Static.cmp .gt ⟨4, 4, 3⟩ ⟨8, 0, 47⟩ = .ok true := by decide
+example : Static.cmp .eq ⟨20, -10, 1024⟩ ⟨2, 0, 1⟩ = .ok true := by decide
+
+/-! ## 4. conversion / assignment: exact (or correctly rounded) or the tag's signal -/
+
+theorem rescale_exact (m : RoundMode) {E e : Int} (v : Int) (h : E ≤ e) :
+    rescale m E e v = v * 2^(e - E).toNat := by simp only [rescale, h, ite_true]
+
+theorem rescale_rounded (m : RoundMode) {E e : Int} (v : Int) (h : e < E) :
+    rescale m E e v = roundDiv m v (2^(E - e).toNat) := by
+  have : ¬ E ≤ e := by omega
+  simp only [rescale, this, ite_false]
+
+/-- the hypothesis of the conversion theorems, spelled out: the exponent does not grow, or it grows by
+`k < digits` and the rounded quotient fits the intermediate `digits − k` digits -/
+theorem not_knownDefect_iff (c : Cfg) (E : Int) (x : SNum) :
+    ¬ KnownDefect c E x ↔
+      (E ≤ x.exp ∨ ((E - x.exp).toNat < x.digits ∧
+        (roundDiv (rmode c.mode) x.value (2^(E - x.exp).toNat)).natAbs ≤ 2^(x.digits - (E - x.exp).toNat) - 1)) := by
+  unfold KnownDefect NarrowingDropsAllDigits RoundedExceedsIntermediate
+  constructor
+  · intro h
+    by_cases hE : E ≤ x.exp
+    · exact .inl hE
+    · right
+      have hk : (E - x.exp).toNat < x.digits :=
+        Decidable.byContradiction fun hk => h (.inl ⟨by omega, by omega⟩)
+      exact ⟨hk, Decidable.byContradiction fun hq => h (.inr ⟨by omega, hk, by omega⟩)⟩
+  · rintro (h | ⟨h1, h2⟩) (⟨h3, h4⟩ | ⟨h3, h4, h5⟩) <;> omega
+
+/-- Conversion / assignment of an in-range `x` to `static_number<D, E>`, outside the two open defect
+classes.  Let `w` be `x` expressed at exponent `E` — exactly rescaled if `E ≤ x.exp`, otherwise the
+quotient by `2^(E − x.exp)` rounded as the rounding tag prescribes.  Then the result is `w` if it fits
+`D` digits; otherwise it is the tag's reaction with the right polarity: the clamped limit `±(2^D − 1)`
+(saturated), an exception (throwing), a trap (trapping), `unreachable` (undefined tag).  Never a
+different value, never undefined behaviour. -/
+theorem convert_exact_or_signal (c : Cfg) (D : Nat) (E : Int) (x : SNum) (hx : x.InRange)
+    (hnd : ¬ KnownDefect c E x) (hwf : ∀ m, Static.convert c D E x ≠ .ill m) :
+    (-(2^D - 1 : Int) ≤ rescale (rmode c.mode) E x.exp x.value ∧ rescale (rmode c.mode) E x.exp x.value ≤ 2^D - 1 →
+      Static.convert c D E x = .ok ⟨D, E, rescale (rmode c.mode) E x.exp x.value⟩) ∧
+    (rescale (rmode c.mode) E x.exp x.value > 2^D - 1 →
+      (c.tag = .sat → Static.convert c D E x = .ok ⟨D, E, 2^D - 1⟩) ∧
+      (c.tag = .thr → Static.convert c D E x = .throws true) ∧
+      (c.tag = .trp → Static.convert c D E x = .trap true) ∧
+      (c.tag = .und → Static.convert c D E x = .unreachable "positive overflow")) ∧
+    (rescale (rmode c.mode) E x.exp x.value < -(2^D - 1 : Int) →
+      (c.tag = .sat → Static.convert c D E x = .ok ⟨D, E, -(2^D - 1 : Int)⟩) ∧
+      (c.tag = .thr → Static.convert c D E x = .throws false) ∧
+      (c.tag = .trp → Static.convert c D E x = .trap false) ∧
+      (c.tag = .und → Static.convert c D E x = .unreachable "negative overflow")) := by
+  rcases convert_core c D E x hx hnd with h | ⟨m, h⟩
+  · rw [h]
+    have hp := two_pow_pos D
+    refine ⟨fun hf => by rw [narrowDigits_fits c D hf]; rfl, fun hgt => ?_, fun hlt => ?_⟩
+    · simp only [narrowDigits, hgt, ite_true]
+      refine ⟨?_, ?_, ?_, ?_⟩ <;> intro ht <;> rw [ht] <;> rfl
+    · have h1 : ¬ rescale (rmode c.mode) E x.exp x.value > 2^D - 1 := by omega
+      simp only [narrowDigits, h1, hlt, ite_true, ite_false]
+      refine ⟨?_, ?_, ?_, ?_⟩ <;> intro ht <;> rw [ht] <;> rfl
+  · exact absurd h (hwf m)
+
+/-- the same as one relation with the ideal conversion; a returned value is in range of `D` digits -/
+theorem convert_agrees (c : Cfg) (D : Nat) (E : Int) (x : SNum) (hx : x.InRange)
+    (hnd : ¬ KnownDefect c E x) (hwf : ∀ m, Static.convert c D E x ≠ .ill m) :
+    Agrees c.tag (Static.convert c D E x) (idealCvt c D E (.val x.exp x.value)) ∧
+      ∀ z, Static.convert c D E x = .ok z → z.digits = D ∧ z.InRange := by
+  have ⟨h1, h2⟩ := Static.convert_agrees c D E x hx hnd hwf
+  refine ⟨h1, fun z hz => ⟨?_, h2 z hz⟩⟩
+  rcases convert_core c D E x hx hnd with h | ⟨m, h⟩
+  · rw [h] at hz
+    cases hv : narrowDigits c D (rescale (rmode c.mode) E x.exp x.value) <;> rw [hv] at hz <;> cases hz
+    rfl
+  · exact absurd h (hwf m)
+
+-- widening assignment, narrowing with rounding, saturation, exception, trap
+example : Static.convert ⟨.nrst, .sat⟩ 20 (-8) ⟨8, -2, -255⟩ = .ok ⟨20, -8, -16320⟩ := by decide
+example : Static.convert ⟨.nrst, .sat⟩ 6 1 ⟨8, -2, 203⟩ = .ok ⟨6, 1, 25⟩ := by decide       -- 50.75 / 2 = 25.375
+example : Static.convert ⟨.tpi, .sat⟩ 6 0 ⟨8, -1, -255⟩ = .ok ⟨6, 0, -63⟩ := by decide      -- −127.5 → −127 → clamped
+example : Static.convert ⟨.ninf, .thr⟩ 6 0 ⟨8, -1, -255⟩ = .throws false := by decide
+example : Static.convert ⟨.nat, .trp⟩ 4 (-3) ⟨8, 0, 2⟩ = .trap true := by decide
+example : (⟨8, -2, 203⟩ : SNum).InRange ∧ ¬ KnownDefect ⟨.nrst, .sat⟩ 1 ⟨8, -2, 203⟩ ∧
+    (∀ m, Static.convert ⟨.nrst, .sat⟩ 6 1 ⟨8, -2, 203⟩ ≠ .ill m) := by
+  refine ⟨by decide, by decide, fun m h => ?_⟩
+  have e : Static.convert ⟨.nrst, .sat⟩ 6 1 ⟨8, -2, 203⟩ = .ok ⟨6, 1, 25⟩ := by decide
+  rw [e] at h; cases h
+
+/-! ### the two open defect classes are genuine: each hypothesis is needed -/
+
+/-- open finding `C11.narrowing_drops_all_digits`: raising the exponent by at least the source's
+digit count executes undefined behaviour (a shift by a negative count in the limits of an
+elastic_integer with a non-positive digit count) instead of yielding `0`.
+Witness `static_number<1, −4>{−1·2^−4}` assigned to `static_number<63, 0>`. -/
+theorem narrowing_drops_all_digits_refuted :
+    ¬ (∀ (c : Cfg) (D : Nat) (E : Int) (x : SNum), x.InRange → ¬ RoundedExceedsIntermediate c E x →
+        (∀ m, Static.convert c D E x ≠ .ill m) →
+        Agrees c.tag (Static.convert c D E x) (idealCvt c D E (.val x.exp x.value))) := by
+  intro h
+  have e : Static.convert ⟨.nat, .trp⟩ 63 0 ⟨1, -4, -1⟩ = .ub .shiftCount := by decide
+  have h' := h ⟨.nat, .trp⟩ 63 0 ⟨1, -4, -1⟩ (by decide) (by decide) (fun m hm => by rw [e] at hm; cases hm)
+  rw [e] at h'
+  cases hi : idealCvt ⟨.nat, .trp⟩ 63 0 (.val (-4) (-1)) <;> rw [hi] at h' <;> exact h'
+
+example : Static.convert ⟨.nat, .trp⟩ 63 0 ⟨1, -4, -1⟩ = .ub .shiftCount ∧
+    idealCvt ⟨.nat, .trp⟩ 63 0 (.val (-4) (-1)) = .val 0 0 ∧ NarrowingDropsAllDigits 0 ⟨1, -4, -1⟩ := by decide
+
+/-- open finding `C11.rounded_value_exceeds_intermediate_digits`: when the rounded quotient has magnitude
+`2^(digits − k)` the intermediate `digits − k`-digit type clamps it (saturated: silently wrong by one
+unit; throwing / trapping: a spurious signal) although the destination could hold it.
+Witness `static_number<5, −2, nearest, saturated>{31·2^−2 = 7.75}` assigned to `static_number<6, 1>`:
+the result is `3·2^1`, the correctly rounded value is `4·2^1`. -/
+theorem rounded_value_exceeds_intermediate_refuted :
+    ¬ (∀ (c : Cfg) (D : Nat) (E : Int) (x : SNum), x.InRange → ¬ NarrowingDropsAllDigits E x →
+        (∀ m, Static.convert c D E x ≠ .ill m) →
+        Agrees c.tag (Static.convert c D E x) (idealCvt c D E (.val x.exp x.value))) := by
+  intro h
+  have e : Static.convert ⟨.nrst, .sat⟩ 6 1 ⟨5, -2, 31⟩ = .ok ⟨6, 1, 3⟩ := by decide
+  have hi : idealCvt ⟨.nrst, .sat⟩ 6 1 (.val (-2) 31) = .val 1 4 := by decide
+  have h' := h ⟨.nrst, .sat⟩ 6 1 ⟨5, -2, 31⟩ (by decide) (by decide) (fun m hm => by rw [e] at hm; cases hm)
+  rw [e, hi] at h'
+  exact absurd h'.2 (by decide)
+
+example : Static.convert ⟨.nrst, .sat⟩ 6 1 ⟨5, -2, 31⟩ = .ok ⟨6, 1, 3⟩ ∧
+    idealCvt ⟨.nrst, .sat⟩ 6 1 (.val (-2) 31) = .val 1 4 ∧ RoundedExceedsIntermediate ⟨.nrst, .sat⟩ 1 ⟨5, -2, 31⟩ := by
+  decide
+-- under the throwing tag the same input signals although the value fits the destination
+example : Static.convert ⟨.nrst, .thr⟩ 6 1 ⟨5, -2, 31⟩ = .throws true := by decide
+
+/-! ## 5. histories: no sequence of operations is silently wrong -/
+
+/-- **C11.**  For every history `e` (an expression tree of any size over `+ − * /`, unary minus and
+conversions / assignments), every rounding and overflow tag: if the literals are in range, no divisor
+is zero and no conversion meets one of the two open defect classes at its argument (`SideOK c e`, the
+arguments being the ones the model computes), and the instantiation is well-formed, then the model's
+evaluation **agrees** with the ideal evaluation:
+
+* a returned value has exactly the ideal exponent and value (under the saturated tag: of the ideal
+  *saturating* evaluation, which clamps where a conversion does not fit) and is in range of its digits;
+* an exception / trap / `unreachable` occurs only under the throwing / trapping / undefined tag, exactly
+  when the ideal evaluation signals overflow, with the same polarity, at the same node (both
+  evaluators stop at the first signalling node in the same order);
+* undefined behaviour never occurs (it agrees with nothing). -/
+theorem never_silently_wrong (c : Cfg) (e : SExpr) (hs : SideOK c e) (hwf : ∀ m, evalModel c e ≠ .ill m) :
+    Agrees c.tag (evalModel c e) (evalIdeal c e) ∧ ∀ v, evalModel c e = .ok v → v.InRange :=
+  eval_agrees c e hs hwf
+
+/-- a value the model returns is the ideal value -/
+theorem value_is_ideal (c : Cfg) (e : SExpr) (hs : SideOK c e) (hwf : ∀ m, evalModel c e ≠ .ill m)
+    (v : SNum) (h : evalModel c e = .ok v) : evalIdeal c e = .val v.exp v.value ∧ v.InRange := by
+  have ⟨h1, h2⟩ := never_silently_wrong c e hs hwf
+  rw [h] at h1
+  exact ⟨agrees_ok h1, h2 v h⟩
+
+/-- conversely an ideal value is returned: no spurious signal -/
+theorem ideal_value_is_returned (c : Cfg) (e : SExpr) (hs : SideOK c e) (hwf : ∀ m, evalModel c e ≠ .ill m)
+    (E w : Int) (h : evalIdeal c e = .val E w) : ∃ v, evalModel c e = .ok v ∧ v.exp = E ∧ v.value = w := by
+  have ⟨h1, _⟩ := never_silently_wrong c e hs hwf
+  rw [h] at h1
+  cases hm : evalModel c e <;> rw [hm] at h1 <;> simp only [Agrees] at h1
+  exact ⟨_, rfl, h1.1, h1.2⟩
+
+/-- an exception is thrown only under the throwing tag, exactly for an ideal overflow of that polarity -/
+theorem throws_is_ideal_signal (c : Cfg) (e : SExpr) (hs : SideOK c e) (hwf : ∀ m, evalModel c e ≠ .ill m)
+    (p : Bool) (h : evalModel c e = .throws p) : evalIdeal c e = .signal p ∧ c.tag = .thr := by
+  have ⟨h1, _⟩ := never_silently_wrong c e hs hwf
+  rw [h] at h1
+  cases hi : evalIdeal c e <;> rw [hi] at h1 <;> simp only [Agrees] at h1
+  exact ⟨by rw [h1.2], h1.1⟩
+
+/-- a trap occurs only under the trapping tag, exactly for an ideal overflow of that polarity -/
+theorem trap_is_ideal_signal (c : Cfg) (e : SExpr) (hs : SideOK c e) (hwf : ∀ m, evalModel c e ≠ .ill m)
+    (p : Bool) (h : evalModel c e = .trap p) : evalIdeal c e = .signal p ∧ c.tag = .trp := by
+  have ⟨h1, _⟩ := never_silently_wrong c e hs hwf
+  rw [h] at h1
+  cases hi : evalIdeal c e <;> rw [hi] at h1 <;> simp only [Agrees] at h1
+  exact ⟨by rw [h1.2], h1.1⟩
+
+/-- an ideal overflow is signalled the way the tag prescribes -/
+theorem ideal_signal_is_signalled (c : Cfg) (e : SExpr) (hs : SideOK c e) (hwf : ∀ m, evalModel c e ≠ .ill m)
+    (p : Bool) (h : evalIdeal c e = .signal p) :
+    (c.tag = .thr ∧ evalModel c e = .throws p) ∨ (c.tag = .trp ∧ evalModel c e = .trap p) ∨
+      (c.tag = .und ∧ ∃ m, evalModel c e = .unreachable m) := by
+  have ⟨h1, _⟩ := never_silently_wrong c e hs hwf
+  rw [h] at h1
+  cases hm : evalModel c e <;> rw [hm] at h1 <;> simp only [Agrees] at h1
+  · exact .inr (.inl ⟨h1.1, by rw [h1.2]⟩)
+  · exact .inl ⟨h1.1, by rw [h1.2]⟩
+  · exact .inr (.inr ⟨h1, _, rfl⟩)
+
+/-- under the saturated tag nothing is ever signalled: the model returns the ideal saturating value -/
+theorem saturated_returns_ideal (c : Cfg) (e : SExpr) (hs : SideOK c e) (hwf : ∀ m, evalModel c e ≠ .ill m)
+    (ht : c.tag = .sat) : ∃ v, evalModel c e = .ok v ∧ evalIdeal c e = .val v.exp v.value ∧ v.InRange := by
+  have ⟨h1, h2⟩ := never_silently_wrong c e hs hwf
+  cases hm : evalModel c e <;> rw [hm] at h1 <;>
+    cases hi : evalIdeal c e <;> rw [hi] at h1 <;> simp only [Agrees, ht] at h1 <;>
+    try (first | (cases h1; done) | (cases h1.1; done))
+  exact ⟨_, rfl, by rw [← h1.1, ← h1.2], h2 _ hm⟩
+
+/-- no history executes undefined behaviour -/
+theorem never_undefined (c : Cfg) (e : SExpr) (hs : SideOK c e) (hwf : ∀ m, evalModel c e ≠ .ill m) (k : UB) :
+    evalModel c e ≠ .ub k := by
+  intro h
+  have ⟨h1, _⟩ := never_silently_wrong c e hs hwf
+  rw [h] at h1
+  cases hi : evalIdeal c e <;> rw [hi] at h1 <;> exact h1
+
+/-! ### non-vacuity: concrete histories -/
+
+/-- `static_number<4,0> c = a * b + d` with `a = b = 15`, `d = 7·2^−2`: the sum `226.75` is rounded to
+`227` and does not fit four digits -/
+def h3 : SExpr := .cvt 4 0 (.add (.mul (.lit ⟨4, 0, 15⟩) (.lit ⟨4, 0, 15⟩)) (.lit ⟨4, -2, 7⟩))
+
+-- a three-node history with a saturating narrowing …
+example : evalModel ⟨.nrst, .sat⟩ h3 = .ok ⟨4, 0, 15⟩ ∧ evalIdeal ⟨.nrst, .sat⟩ h3 = .val 0 15 ∧
+    SideOK ⟨.nrst, .sat⟩ h3 := by decide
+-- … a throwing one, a trapping one …
+example : evalModel ⟨.nrst, .thr⟩ h3 = .throws true ∧ evalIdeal ⟨.nrst, .thr⟩ h3 = .signal true ∧
+    SideOK ⟨.nrst, .thr⟩ h3 := by decide
+example : evalModel ⟨.ninf, .trp⟩ (.neg h3) = .trap true ∧ evalIdeal ⟨.ninf, .trp⟩ (.neg h3) = .signal true := by
+  decide
+-- … the saturated value is consumed by later operations: (15 − 1/4) / −3 = −4.91… → −5 at exponent 2 − …
+example : evalModel ⟨.tpi, .sat⟩ (.div (.sub h3 (.lit ⟨2, -2, 1⟩)) (.lit ⟨3, 0, -3⟩)) = .ok ⟨7, -2, -20⟩ ∧
+    evalIdeal ⟨.tpi, .sat⟩ (.div (.sub h3 (.lit ⟨2, -2, 1⟩)) (.lit ⟨3, 0, -3⟩)) = .val (-2) (-20) ∧
+    SideOK ⟨.tpi, .sat⟩ (.div (.sub h3 (.lit ⟨2, -2, 1⟩)) (.lit ⟨3, 0, -3⟩)) := by decide
+-- the history that was silently wrong before the repairs: (max / 2) narrowed to 31 digits
+example : evalModel ⟨.nrst, .sat⟩ (.cvt 31 0 (.div (.lit ⟨31, 0, 2147483647⟩) (.lit ⟨31, 0, 2⟩)))
+    = .ok ⟨31, 0, 1073741824⟩ ∧
+    SideOK ⟨.nrst, .sat⟩ (.cvt 31 0 (.div (.lit ⟨31, 0, 2147483647⟩) (.lit ⟨31, 0, 2⟩))) := by decide
+-- the well-formedness hypothesis is satisfiable
+example : ∀ m, evalModel ⟨.nrst, .thr⟩ h3 ≠ .ill m := by
+  intro m h
+  have e : evalModel ⟨.nrst, .thr⟩ h3 = .throws true := by decide
+  rw [e] at h; cases h
+-- the side conditions are needed: a history through the open defect class is silently wrong
+example : ¬ SideOK ⟨.nrst, .sat⟩ (.cvt 6 1 (.lit ⟨5, -2, 31⟩)) ∧
+    evalModel ⟨.nrst, .sat⟩ (.cvt 6 1 (.lit ⟨5, -2, 31⟩)) = .ok ⟨6, 1, 3⟩ ∧
+    evalIdeal ⟨.nrst, .sat⟩ (.cvt 6 1 (.lit ⟨5, -2, 31⟩)) = .val 1 4 := by decide
+
+end Cnl.C11
